@@ -19,6 +19,7 @@ def finalValues (fs : Pflag.PFlags) (sets : List (Str × Str)) : List (String ×
       | .count =>
         let n : Int := vs.foldl (fun acc v => if v == "+1".toList then acc + 1 else (String.ofList v).toInt?.getD 0) 0
         toString n
+      | .stringArray | .ipNetSlice => "*"
       | .stringSlice => "[" ++ String.intercalate "," ((vs.filter (fun v => !v.isEmpty)).map String.ofList) ++ "]"   -- an empty value adds no element
       | _ => String.ofList (vs.getLast?.getD [])
     (String.ofList n, v))
